@@ -10,7 +10,7 @@ JOINTS_ORI = ["Spherical", "Revolute", "RigidConnection", "Prismatic", "Cylindri
 
 
 def build_chain(rng, nbodies=None, closed=False, base="origin", springs=True, point_masses=True, joint_kinds=None,
-                gravity=True, t0=0.0, initial_velocity=False, actuators=False):
+                gravity=True, t0=0.0, initial_velocity=False, actuators=False, rest_start=False):
     """chain base - j1 - b1 - j2 - b2 ... (optionally closed by a spherical joint back to the base).
     Bodies start at rest unless the base is a moving frame, in which case the whole chain moves rigidly
     with the frame at t0 (consistent with every joint). Returns (system, info)."""
@@ -26,7 +26,8 @@ def build_chain(rng, nbodies=None, closed=False, base="origin", springs=True, po
     if base == "origin":
         root = S.origin
     else:
-        mot = gen.Motion(rng, moving=True, rotating=(base == "rotating"))
+        mot = gen.Motion(rng, moving=True, rotating=(base == "rotating"), rest_at=(t0 if rest_start else None))
+        info_rest = bool(rest_start)
         root = mot.frame(Frame, name="base")
         S.add(root)
     kinds = joint_kinds or JOINTS_ORI
